@@ -17,4 +17,5 @@ PROPERTY NeverMergedA
 PROPERTY ExactlyOnceAfterFinal
 PROPERTY AllPartsInOrder
 PROPERTY Isolation
+PROPERTY FreeIsOwnOnly
 CHECK_DEADLOCK FALSE
